@@ -546,6 +546,69 @@ def work(item, rec):
                 rec.violation(key, what[0], {"kind": "mask", "src": src, "tgt": tgt, "key": key})
 
 
+# ---------------------------------------------------------------------------------------------------------
+# several casts in one script: the result of a cast must not depend on the other statements of the script
+# ---------------------------------------------------------------------------------------------------------
+
+MULTI_MEASURES = [
+    ("M_int", "Integer", [1, 0, -4]), ("M_num", "Number", [1.5, 0.0, -3.75]), ("M_bool", "Boolean", [True, False, True]),
+    ("M_date", "Date", ["2020-01-15", "2021-02-03", "1999-12-31"]), ("M_tp", "Time_Period", ["2020Q1", "2020M2", "2020"]),
+    ("M_time", "Time", ["2020-01-01/2020-12-31", "2020-01-01/2020-03-31", "2020-01-15/2020-01-15"]),
+    ("M_dur", "Duration", ["A", "M", "D"]), ("M_str", "String", ["3", "-4", "15"]),
+    ("M_strdate", "String", ["2020-01-15", "2021-02-03", "1999-12-31"]), ("M_strtp", "String", ["2020Q1", "2020M2", "2020"]),
+    ("M_strbool", "String", ["true", "false", "true"]), ("M_strdur", "String", ["A", "M", "D"]),
+]
+
+
+def multi_dataset():
+    from vtlmc.refbase import DS, ID, ME
+    rows = [dict({"Id_1": i + 1}, **{n: vals[i] for n, _, vals in MULTI_MEASURES}) for i in range(3)]
+    return DS("DS_1", [("Id_1", "Integer", ID)] + [(n, t, ME) for n, t, _ in MULTI_MEASURES], rows)
+
+
+def _multi_outcome(out, name):
+    if out[0] != "ok":
+        return ("err", out[2], out[3])
+    ds = out[1].get(name)
+    if ds is None:
+        return ("err", "MissingResult", None)
+    rows = harness.dataset_rows(ds) or []
+    cols = sorted(c for c in (rows[0] if rows else {}) if c != "Id_1")
+    return ("ok", tuple(sorted((r.get("Id_1"),) + tuple(repr(harness.canon_value(r.get(c))) for c in cols) for r in rows)),
+            tuple(sorted((c.name, getattr(c.data_type, "__name__", str(c.data_type))) for c in ds.components.values())))
+
+
+def multi_cast_item(item, rec):
+    """item = list of ((measure, target keyword), (measure2, target2)) ordered pairs; each statement's result in the
+    two-statement script must equal its result when it is the only statement"""
+    from vtlmc import refbase
+    harness.boot()
+    ds = multi_dataset()
+    alone = {}
+
+    def run_alone(m, kw):
+        if (m, kw) not in alone:
+            alone[(m, kw)] = _multi_outcome(refbase.run("R_1 <- cast(DS_1#%s, %s);" % (m, kw), [ds]), "R_1")
+        return alone[(m, kw)]
+    for (m1, k1), (m2, k2) in item:
+        a1, a2 = run_alone(m1, k1), run_alone(m2, k2)
+        script = "R_1 <- cast(DS_1#%s, %s);\nR_2 <- cast(DS_1#%s, %s);" % (m1, k1, m2, k2)
+        out = refbase.run(script, [ds])
+        for name, a, (m, kw), other in (("R_1", a1, (m1, k1), (m2, k2)), ("R_2", a2, (m2, k2), (m1, k1))):
+            if a[0] != "ok":
+                continue           # only conversions that work alone are judged here (the rest is the pair space's business)
+            got = _multi_outcome(out, name)
+            same = got == a
+            rec.case(("multi-cast", m, kw, "first" if name == "R_1" else "second", same), "same-as-alone" if same else "differs-from-alone",
+                     sample={"script": script} if name == "R_2" else None)
+            if not same:
+                stype = dict((n, t) for n, t, _ in MULTI_MEASURES)[m]
+                rec.violation("C09:several-casts-in-one-script:%s->%s:%s-statement:differs-from-the-cast-alone" % (stype, kw, "first" if name == "R_1" else "second"),
+                              "script %r: result %s of cast(DS_1#%s, %s) is %s, the same statement alone gives %s" % (
+                                  script.replace("\n", " "), name, m, kw, str(got)[:200], str(a)[:200]),
+                              {"kind": "multi", "pair": [[m1, k1], [m2, k2]]})
+
+
 class Check:
     ID = "C09"
     LEVEL = "exploration"
@@ -554,7 +617,9 @@ class Check:
             "pair once per level with a mask; all 64 pairs x the whole pool x 3 levels are enumerated (values expected to convert "
             "share one run per level, one row / statement per value; every other value and every suspected deviation is run alone). "
             "distinct = (source, target, documented value class, level, outcome class); for a pair the documented table forbids the "
-            "value cannot matter, so only its first value counts as non-trivial.")
+            "value cannot matter, so only its first value counts as non-trivial. Plus: every ordered pair of dataset-level casts of two "
+            "different measures of one 12-measure dataset in one script (quick: partners = the next two measures), each result "
+            "compared with the same statement alone.")
     ASSUMPTIONS = [
         "oracle = docs/data_types.rst parsed at run time; the reference rules reproduce every worked example of the document "
         "(calibration failure = tooling error, exit 2)",
@@ -606,6 +671,14 @@ class Check:
         items = harness.seeded_order(items, seed)
         items.sort(key=lambda it: 0 if (it[0] == "pair" and it[1] == "String") else 1)
         harness.pmap(work, items, rec)
+        kws = [R.KEYWORD[t] for t in R.TYPES]
+        sts = [(m, kw) for m, _, _ in MULTI_MEASURES for kw in kws]
+        pairs = [(a, b) for a in sts for b in sts if a[0] != b[0]]
+        if tier == "quick":      # quick: every statement once in each position, partner = every target of the next two measures
+            names = [m for m, _, _ in MULTI_MEASURES]
+            pairs = [(a, b) for a, b in pairs if (names.index(b[0]) - names.index(a[0])) % len(names) in (1, 2)]
+        pairs = harness.seeded_order(pairs, seed)
+        harness.pmap(multi_cast_item, list(harness.chunks(pairs, 40)), rec)
         if not rec.outcomes.get("converts-as-documented") or not rec.outcomes.get("rejected-as-documented") \
                 or not rec.outcomes.get("forbidden-pair:rejected-SemanticError"):
             rec.tool_error("non-vacuity: no conversion / no rejection / no forbidden pair was verified: %s" % rec.outcomes)
@@ -617,6 +690,10 @@ class Check:
     def replay(self, data):
         V = harness.boot()
         d = docs()
+        if data["kind"] == "multi":
+            r2 = harness.Recorder()
+            multi_cast_item([tuple(tuple(x) for x in data["pair"])], r2)
+            return bool(r2.violations)
         if data["kind"] == "mask":
             _, found = judge_mask(V, d, data["src"], data["tgt"])
             return data["key"] in found
